@@ -298,6 +298,7 @@ type recConn struct {
 	nops  int
 	mu    sync.Mutex
 	pre   func() // optional: called before every operation (the scheduler's point)
+	ops   *[]opInfo // optional: every operation is appended here
 }
 
 type faultAction struct {
@@ -312,14 +313,25 @@ func (c *recConn) backend() driver.Conn {
 	return c.inner
 }
 
+// opInfo: one store operation of a run, in order
+type opInfo struct {
+	N   int
+	Op  string
+	Key string
+	Bg  bool
+}
+
 func (c *recConn) nextFault(op, key string) *faultAction {
-	if c.fault == nil {
-		return nil
-	}
 	c.mu.Lock()
 	n := c.nops
 	c.nops++
+	if c.ops != nil {
+		*c.ops = append(*c.ops, opInfo{N: n, Op: op, Key: key, Bg: goid() != c.rec.fgID})
+	}
 	c.mu.Unlock()
+	if c.fault == nil {
+		return nil
+	}
 	return c.fault(op, key, n)
 }
 
